@@ -57,6 +57,9 @@ TItem == /\ l <= N /\ Tr[l].e = "I"
                     ELSE IF ev.full # AbsFull(nv)
                     THEN Bad("adding an item reported the block full / not full differently from a fresh block with that content and those parameters", ev)
                          /\ UNCHANGED val
+                    ELSE IF "fe" \in DOMAIN ev /\ ~ev.fe
+                    THEN Bad("after adding an item the block's earliest time differs from that of a freshly built block given the same items in the same order", ev)
+                         /\ UNCHANGED val
                     ELSE val' = [val EXCEPT ![ev.t] = nv] /\ UNCHANGED <<lost, viol>>
 
 TNew == /\ l <= N /\ Tr[l].e = "NB"
@@ -105,6 +108,7 @@ TRead == /\ l <= N /\ Tr[l].e = "RD"
                       /\ UNCHANGED cur
 
 SerOK(v, ev) == /\ ev.ok /\ ev.m = v.m
+                /\ ("fe" \in DOMAIN ev => ev.fe)       \* earliest time = that of a freshly built block given the same items in the same order
                 /\ Len(ev.q) = Len(v.q)
                 /\ \A i \in 1..Len(v.q) : ev.q[i] = <<v.q[i], RcExp(v.q[i], v.p), OcExp(v.q[i], v.p)>>
                 /\ Len(ev.a) = Len(v.a)
